@@ -170,6 +170,16 @@ TPL_XSD = ('<xs:schema xmlns:xs="http://www.w3.org/2001/XMLSchema" xmlns:t="urn:
            'processContents="lax" minOccurs="0" maxOccurs="unbounded"/></xs:sequence></xs:complexType></xs:element>'
            '<xs:element name="w1" minOccurs="0"><xs:complexType><xs:sequence><xs:any namespace="##targetNamespace" '
            'processContents="strict"/></xs:sequence></xs:complexType></xs:element>'
+           # value constraints on elements whose explicit value is "falsy" in Python (0, false, 0.0, empty list)
+           '<xs:element name="dq" default="1" minOccurs="0" maxOccurs="unbounded"><xs:complexType><xs:simpleContent>'
+           '<xs:extension base="xs:int"><xs:attribute name="unit" type="xs:string"/></xs:extension></xs:simpleContent>'
+           '</xs:complexType></xs:element>'
+           '<xs:element name="db" default="true" minOccurs="0" maxOccurs="unbounded"><xs:complexType><xs:simpleContent>'
+           '<xs:extension base="xs:boolean"><xs:attribute name="why" type="xs:string"/></xs:extension></xs:simpleContent>'
+           '</xs:complexType></xs:element>'
+           '<xs:element name="dd" type="xs:decimal" default="0.5" minOccurs="0" maxOccurs="unbounded"/>'
+           '<xs:element name="dp" type="xs:int" default="3" minOccurs="0"/>'
+           '<xs:element name="ds" type="xs:string" default="dflt" minOccurs="0"/>'
            '</xs:sequence></xs:complexType></xs:element></xs:schema>')
 TPL_VALUES = {'head': ['x', '1 2'], 'mi': ['1 2 3', '4', '5 6'], 'md': ['1.5', '2'], 'mu': ['1', 'true'],
               'gl': ['7 8', '9'], 'gc': None}
@@ -220,6 +230,11 @@ def tpl_doc(rnd):
         parts.append('<p:w>%s</p:w>' % ''.join(inner))
     if rnd.random() < .5:
         parts.append('<p:w1>%s</p:w1>' % el(rnd.choice(['gl', 'mi', 'gc'])))
+    for name, attr, vals in (('dq', 'unit', ['0', '2', '1', '-0']), ('db', 'why', ['false', 'true', '0']),
+                             ('dd', None, ['0', '0.0', '0.5', '2']), ('dp', None, ['0', '3']), ('ds', None, ['x', 'dflt'])):
+        for _ in range(rnd.choice([0, 1, 1, 2]) if name in ('dq', 'db', 'dd') else rnd.choice([0, 1])):
+            a = ' %s="u"' % attr if attr and rnd.random() < .5 else ''
+            parts.append('<p:%s%s>%s</p:%s>' % (name, a, rnd.choice(vals), name))
     doc = '<p:root xmlns:p="urn:t">%s</p:root>' % ''.join(parts)
     if rnd.random() < .5:
         # the same document under a default namespace declaration
